@@ -75,6 +75,7 @@ def check_vector(acc, v, coarse, nids, hs, labels=None):
             if npts >= 2 and i not in hit:
                 acc.violation({"kind": "unreachable", "sub": "eval", "text": text, "weights": v, "group": i,
                                "why": f"group {i} spans {npts} grid points but was returned for none of the explored positions"})  # fmt: skip
+    reprobe_previous(acc, ast, ev)
     # real ids: position from the published scheme
     for j in ([] if not nids else ["", " ", "0", 0, None, False, 0.0]) + list(range(nids)):  # (degenerate keys first: the empty key has a position like any other)
         acc.add("evaluations")
@@ -83,6 +84,24 @@ def check_vector(acc, v, coarse, nids, hs, labels=None):
         why = oracle.agree(out, oracle.expected(ast, env))
         if why:
             acc.violation({"kind": "realid", "sub": "eval", "text": text, "env": enc(env), "observed": short(repr(out)), "why": why})
+
+
+_PREV = []
+
+
+def reprobe_previous(acc, ast, ev):
+    """the evaluator of the PREVIOUS vector, still alive, must still partition by its own weights now that another
+    experiment of the same name has been compiled"""
+    if _PREV:
+        past, pev = _PREV[0]
+        for uid in ("", 0, 1, 2, 3, "x", 17, 255):
+            acc.add("evaluations")
+            why = oracle.agree(impl.call(pev, {"uid": uid}), oracle.expected(past, {"uid": uid}))
+            if why:
+                acc.violation({"kind": "realid", "sub": "eval", "text": rp.render(past), "env": enc({"uid": uid}), "after": rp.render(ast),
+                               "why": "after another experiment was compiled, this (still living) evaluator no longer partitions by its own weights: " + why})  # fmt: skip
+                break
+    _PREV[:] = [(ast, ev)]
 
 
 def _work(units):
@@ -234,6 +253,17 @@ def replay(data):
         from ..common import replay_in_host
 
         return replay_in_host(data, "mc.checks.c03", "_work", [[data["weights"], 8, 64]])
+    if kind == "realid" and "after" in data:
+        from ..common import dec
+
+        cl = rp.classify(data["text"])
+        b = impl.build(data["text"])
+        if cl[0] != "accept" or b[0] != "ok":
+            return False, "the first text no longer compiles"
+        impl.build(data["after"])
+        env = dec(data["env"])
+        why = oracle.agree(impl.call(b[1], env), oracle.expected(cl[1], env))
+        return bool(why), why or "the living evaluator still follows its own weights"
     if kind in ("realid", "witness"):
         return progcheck.replay_eval(data)
     v = data["weights"]
